@@ -491,6 +491,8 @@ var runCount int
 // gcEvery is the number of runs between explicit collections.
 var gcEvery = 32
 
+var noPools = os.Getenv("VERIF_NOPOOLS") != ""
+
 // Run executes body inside a fresh bubble under cfg and returns the result.
 // body runs on the bubble's root goroutine and is expected to build the system,
 // start tasks with s.Go, call s.Loop, evaluate oracles, call s.Drain and shut
@@ -512,6 +514,17 @@ func Run(t *testing.T, cfg Config, trace bool, body func(s *Sim)) *Result {
 	runCount++
 	if runCount%gcEvery == 0 {
 		runtime.GC()
+	}
+	// sync.Pool is live inside the bubble and every pool is emptied before the run, so
+	// that what a Get finds depends on this run only: an object recycled across calls
+	// (a classic optimisation, and a classic way of carrying state from one request
+	// into another) behaves as it would in production, and a run still does not
+	// depend on what earlier runs of the process left behind. VERIF_NOPOOLS=1 goes
+	// back to "nothing is pooled inside a bubble".
+	if !noPools {
+		runtime.VerifPools(true)
+		defer runtime.VerifPools(false)
+		runtime.VerifClearPools()
 	}
 	runtime.VerifSeed(cfg.Seed*2 + 1)
 	defer runtime.VerifSeed(0)
